@@ -35,6 +35,31 @@ def is_scalar_param(arg):
     return False
 
 
+def _int_annotated(fnode, name):
+    for a in fnode.args.args + fnode.args.kwonlyargs:
+        if a.arg == name and a.annotation is not None:
+            t = norm(a.annotation).strip("'\"")
+            return t in ('int', 'float', 'bool')
+    return False
+
+
+def _int_expr(fnode, e):
+    """an expression made of constants, len(..) / int(..) calls, .ndim reads and int-annotated parameters"""
+    if isinstance(e, ast.Constant):
+        return isinstance(e.value, (int, float)) 
+    if isinstance(e, ast.Call):
+        return isinstance(e.func, ast.Name) and e.func.id in ('len', 'int') and len(e.args) == 1 and not e.keywords
+    if isinstance(e, ast.Attribute):
+        return e.attr == 'ndim'
+    if isinstance(e, ast.Name):
+        return _int_annotated(fnode, e.id)
+    if isinstance(e, ast.BinOp):
+        return _int_expr(fnode, e.left) and _int_expr(fnode, e.right)
+    if isinstance(e, ast.UnaryOp):
+        return _int_expr(fnode, e.operand)
+    return False
+
+
 def _used_as_array(fnode, name):
     """the parameter is written through (p[...] = v, p += v, out=p) or annotated as an array: whatever its name says, it is storage the caller can see"""
     for a in fnode.args.args + fnode.args.kwonlyargs:
@@ -44,6 +69,8 @@ def _used_as_array(fnode, name):
         if isinstance(n, ast.Subscript) and isinstance(n.ctx, (ast.Store, ast.Del)) and isinstance(n.value, ast.Name) and n.value.id == name:
             return True
         if isinstance(n, ast.AugAssign) and isinstance(n.target, ast.Name) and n.target.id == name:
+            if _int_annotated(fnode, name) and _int_expr(fnode, n.value):
+                continue        # `axis += len(shape)` on a parameter declared int: integers are immutable, the name is re-bound
             return True
         if isinstance(n, ast.keyword) and n.arg == 'out' and isinstance(n.value, ast.Name) and n.value.id == name:
             return True
